@@ -153,12 +153,8 @@ func ruleErrorDiscipline(r *Run, id string) {
 					okc = nonNilErrReturn(ret)
 					detail = "the not-succeeded edge returns at " + posOf(p, ret)
 				} else {
-					w := reachesWithoutFromBlock(failSucc, func(x ssa.Instruction) bool {
-						rr, isRet := x.(*ssa.Return)
-						return isRet && nonNilErrReturn(rr)
-					}, nil)
-					okc = w != nil
-					detail = "the not-succeeded edge continues; a non-nil error return is reachable"
+					okc = false
+					detail = "the not-succeeded edge does not end in a return of its own: it rejoins the success path, so a negative answer is treated like a positive one"
 				}
 				r.Check(fmt.Sprintf("%s resultcode#%d", name, j), okc, p.pos(bo.Pos()), name, detail)
 			}
